@@ -13,6 +13,10 @@ ASSUMPTIONS = [
     "hash function: the harness installs a deterministic BuildHasher whose low 3 bits are the key's (shard = key mod n, "
     "n in {1,2,4,8}); the theorems need only that a key always hashes to the same shard (wf_from)",
     "times are unbounded N (no u64 nanosecond wrap); metrics.current_cost IS modelled with u64 wrap-around",
+    "a snapshot is a bag of entries: the restore theorems hold for every ordering of its entry list; the harness reorders "
+    "the deserialized snapshot of a BOUNDED cache by key (through its own Serialize/Deserialize impls) before "
+    "build_from_snapshot, because the entry order - the original's hash-map order, unknown to the model - decides the "
+    "LRU order of the restored policy; the model's op does the same (Snapshot.v reorder)",
     "restored-capacity theorems: per-shard LruPolicy (model Cache/PolicyLru.v, tied by C14's engine) instead of the "
     "default TinyLFU, which is sketch/hash dependent; reads of bounded caches go through peek (no read-access batching); "
     "caches that run run_maintenance are built without time_to_live/time_to_idle (no timer wheel, no TTI sampling); "
@@ -25,8 +29,10 @@ ASSUMPTIONS = [
     "maintenance_on_introspection(false); the cache clock is the virtual clock of hook H4",
 ]
 
+# fixed (known_findings.txt `fixed:` line, no witness): F-23 (restored-over-capacity) - the restore now admits
+# every restored entry to its policy.  The clause stays in the monitor and is an ordinary violation now; the
+# former witness "1 10 0 0 I 1 1 4 I 2 2 4 I 3 3 4 SN 0 0 M C" stays in the engine's corpus.
 WITNESS = {
-    "F-23": (ENG, "1 10 0 0 I 1 1 4 I 2 2 4 I 3 3 4 SN 0 0 M C", "restored-over-capacity"),
     "F-C17-tti": (ENG, "1 0 0 10 I 1 1 1 A 9 SN 0 10 A 5 P 1", "restore-tti-not-preserved"),
 }
 
@@ -51,14 +57,15 @@ MANIFEST = {
             "restore(snapshot c) has the same live key->(value,cost) mapping, exact current_cost and exactly the same TTL "
             "left (C17_snapshot_*); the full lifetime clause is refuted for idle timeouts (restore re-stamps last_accessed) "
             "and holds without TTI; a cache built empty always ends a fully draining run_maintenance within capacity "
-            "(C17_fresh_capacity) while the same clause for restored caches is refuted (finding F-23: the restore admits "
-            "nothing to the policy, so a snapshot taken over capacity stays over capacity) and holds whenever the snapshot "
-            "was within capacity (C17_restored_capacity_except_F23). Both refutation witnesses are replayed on the real code "
-            "by the property monitor on every run.",
+            "(C17_fresh_capacity) and, since the repair of finding F-23 (build_from_snapshot now admits every restored "
+            "entry to its shard's policy: C17_restore_admits_all), so does every cache built from a snapshot, from any "
+            "consistent original state and any ordering of the snapshot's entries (C17_restored_capacity, the full clause). "
+            "The TTI refutation witness is replayed on the real code by the property monitor on every run; the former "
+            "F-23 witness stays in the corpus as a regression case.",
     "design_ref": "DESIGN.md §8 C17, §9 F-23",
-    "note": "Trusted: Coq kernel, ExtrOcamlBasic extraction + OCaml driver, the D1 harness/generator/monitor, serde/bincode, "
+    "note": "F-23 fixed in /repo (docs/fixes/C17_F-23.diff). Trusted: Coq kernel, ExtrOcamlBasic extraction + OCaml driver, the D1 harness/generator/monitor, serde/bincode, "
             "hashbrown's iteration stability on an unchanged map. Clock-advancing iterations are order dependent, so their "
             "item lists are judged by the monitor (sandwich clauses of C17_iter_clock), not diffed. Not covered: iteration "
-            "concurrent with writers, TinyLFU after restore, timer-wheel interaction after restore (restored TTL entries get "
-            "no timer), remove/clear.",
+            "concurrent with writers, TinyLFU after restore (incl. the AdmitAndEvict/Reject branches of the repaired restore, "
+            "unreachable with LruPolicy), timer-wheel interaction after restore (restored TTL entries get no timer), remove/clear.",
 }
